@@ -4,10 +4,11 @@ use crate::framework::{DynScenario, Erased};
 use std::sync::Arc;
 
 pub mod cache;
+pub mod kmt;
 pub mod lru;
 
 pub fn all() -> Vec<Box<dyn DynScenario>> {
-    vec![Box::new(Erased(Arc::new(lru::Lru))), Box::new(Erased(Arc::new(cache::Cache)))]
+    vec![Box::new(Erased(Arc::new(lru::Lru))), Box::new(Erased(Arc::new(cache::Cache))), Box::new(Erased(Arc::new(kmt::Kmt)))]
 }
 
 pub fn by_property(id: &str) -> Option<Box<dyn DynScenario>> {
